@@ -199,7 +199,7 @@ class SWCtx:
         for f in self.nonzero:
             r = r * f
         if self.G is not None:
-            r = r * self.G[1] * self.G[2]
+            r = r * self.G[1]           # u = g(x1)·D³ ≠ 0: no point of order 2 on E' and D ≠ 0 (checked at the helper call)
         return r
 
     def red(self, f: KT):
